@@ -352,6 +352,22 @@ func finishCheck(prop, tierName string, tier, seed int, jobs []*job, tmp string,
 						j.detail = "native panic instead: " + o.panicM
 					}
 				}
+				if !rep && v.MapDep && v.Expect != "panic" {
+					// the path depends on a map iteration order, which is random in
+					// the native run: repeat the replay of this vector
+					for try := 0; try < 12 && !rep; try++ {
+						one, _ := os.MkdirTemp(tmp, "vecm")
+						writeJSON(filepath.Join(one, names[v]), v)
+						o1, _, _ := nativeReplay(pkgRel, one, tier, tmp, "")
+						if x := o1[names[v]]; x != nil && x.ran {
+							for _, f := range x.fails {
+								if f == v.Expect {
+									rep = true
+								}
+							}
+						}
+					}
+				}
 				if rep {
 					j.verdict = "reproduced"
 				} else {
@@ -365,6 +381,7 @@ func finishCheck(prop, tierName string, tier, seed int, jobs []*job, tmp string,
 	}
 	// ---- classify
 	violations, knownSeen, unrepro, witnessOK, witnessBad := 0, map[string]string{}, 0, 0, 0
+	unreproExact := 0
 	samples := []interface{}{}
 	var lines []string
 	for _, j := range js {
@@ -405,6 +422,7 @@ func finishCheck(prop, tierName string, tier, seed int, jobs []*job, tmp string,
 				fmt.Fprintf(os.Stderr, "INCONCLUSIVE: candidate for %s (%s) on an over-approximated path did not reproduce natively\n", j.v.Expect, j.v.Entry)
 				continue
 			}
+			unreproExact++
 			fmt.Fprintf(os.Stderr, "ENGINE FAULT: counterexample candidate for %s (%s) did not reproduce natively: %s inputs=%s symbolic-side message: %s\n", j.v.Expect, j.v.Entry, j.detail, compactInputs(j.v), j.v.Msg)
 		}
 	}
@@ -564,6 +582,12 @@ func finishCheck(prop, tierName string, tier, seed int, jobs []*job, tmp string,
 		// code the executor cannot interpret was reached: the paths through it
 		// were not explored, which on a tree where every path used to be
 		// interpretable means this run cannot vouch for the property
+		return 2
+	}
+	if unreproExact > 0 {
+		// a counterexample on an exactly modelled path that the native run does
+		// not confirm: the encoding or a model is wrong, or the failure depends on
+		// something the replay cannot control; never "holds"
 		return 2
 	}
 	if witnessBad > 0 {
